@@ -13,15 +13,18 @@
     is FALSE of the model: [C09_kernel_message_panics_refuted] (zero-power NextValidators of a
     committed header) and [C09_kernel_message_panics_refuted_vals] (zero-power Validators of a
     committed header).  What holds is the statement over histories whose ACCEPTED inputs are
-    admissible ([reachable_a]: every proposed / replayed header of the history carries validator
-    sets of non-zero total power - [op_wf]); the message [o] that is delivered last is completely
-    arbitrary (no bound on its height, no condition on its validator sets).
+    admissible ([reachable_a]: every proposed header of the history that the mirror ACCEPTED, and
+    every replayed header, carries validator sets of non-zero total power - [step_adm]); the
+    message [o] that is delivered last is completely arbitrary (no bound on its height, no
+    condition on its validator sets).
 
     Definitions used below (Proofs/MirrorTotal.v):
       pow_ok vs      := 0 < sum_pows (vs_pows vs)               (uint64 sum, as the kernel computes it)
       hdr_wf x       := pow_ok (hd_vals x) /\ pow_ok (hd_next x)
       op_wf o        := OpPH p => hdr_wf (ph_hdr p) | OpReplay x cp => pow_ok (hd_next x) /\ cp_round cp < two32 | votes => True
-      reachable_a    := init_state, closed under [step s o = Ok (s', _)] with [op_bounded o] and [op_wf o]
+      step_adm o res := OpPH p => res = HandleProposedHeaderAccepted -> hdr_wf (ph_hdr p)
+                        | OpReplay x cp => pow_ok (hd_next x) /\ cp_round cp < two32 | votes => True     (implied by op_wf o)
+      reachable_a    := init_state, closed under [step s o = Ok (s', res)] with [op_bounded o] and [step_adm o res]
       replay_round_bounded o := OpReplay _ cp => cp_round cp < two32 | _ => True   (a uint32 in Go)
       replay_earlier_guard s x cp := (hd_height x =? v_h (k_vot s)) && (cp_round cp <? v_r (k_vot s))
       replay_refused_guard s x cp := (hd_height x =? v_h (k_vot s)) && (v_r (k_vot s) <=? cp_round cp)
@@ -144,6 +147,13 @@ Print Assumptions C09_kernel_replay_never_out_of_fuel.
 Theorem C09_kernel_replay_restructured : forall s x cp, handle_replay s x cp = handle_replay' s x cp.
 Proof. exact handle_replay_eq. Qed.
 Print Assumptions C09_kernel_replay_restructured.
+
+(** The round bound on the replayed commit proof is needed in the model (its rounds are [N]; a
+    uint32 in Go). *)
+Theorem C09_kernel_replay_fuel_site_needs_round_bound :
+  step (init_state 1 ex_vs) (OpReplay (ex_hdr ex_vs ex_vs) (mk_cproof two32 [1] [])) = Panic site_replay_fuel.
+Proof. exact replay_fuel_site_needs_round_bound. Qed.
+Print Assumptions C09_kernel_replay_fuel_site_needs_round_bound.
 
 (** The hypotheses are satisfiable. *)
 Theorem C09_kernel_hypotheses_satisfiable : 1 <= 1 /\ vs_ok ex_vs = true /\ 0 < sum_pows (vs_pows ex_vs).
